@@ -537,7 +537,14 @@ fn c10_packed(rep: &mut Report, ctx: &Ctx) {
 /// the 2^32 mark, spans around it. Every API on the span must equal the same
 /// API on the sub-slice shifted by the span start, and lie inside the span.
 /// Shard 0 only; not under the interpreters.
-fn c10_far_offsets(ctx: &Ctx, rep: &mut Report) {
+pub fn c10_far_offsets(ctx: &Ctx, rep: &mut Report) {
+    far_offsets(ctx, rep, &Kind::ALL)
+}
+
+/// (also run by C01 for the leftmost kinds: what a search reports beyond 2^32
+/// is then compared with the same search on the sub-slice, which the reference
+/// model covers)
+pub fn far_offsets(ctx: &Ctx, rep: &mut Report, kinds: &[Kind]) {
     if ctx.shard != 0 || ctx.tier == Tier::Tiny || cfg!(miri) || usize::BITS < 64 {
         return;
     }
@@ -567,7 +574,7 @@ fn c10_far_offsets(ctx: &Ctx, rep: &mut Report) {
     hay[base - 2..base + 3].copy_from_slice(b"abcde"); // straddles the mark
     let t0 = std::time::Instant::now();
     let spans = [(base - 64, base + 1000), (base - 1, base + 40), (base, base + 300), (base + 1, base + 4096), (base - 200, base - 1), (base - 2, base + 3)];
-    for &kind in &Kind::ALL {
+    for &kind in kinds {
         for imp in Imp::ALL {
             for pre in [false, true] {
                 let cfg = Cfg::new(imp, kind).sk(SK::Both).pre(pre);
